@@ -1,6 +1,7 @@
 import XixiKV.Proofs.Crc
 import XixiKV.Proofs.Truncate
 import XixiKV.Proofs.TruncateBoundary
+import XixiKV.Proofs.TransEq5
 /-!
 # C12 — damaged bytes are detected or harmless (partial by design)
 
@@ -19,6 +20,10 @@ Proved here, for the concrete CRC-32 chunk codec of the model:
                          corruption, not as a shorter log;
 * `C12_torn_tail_active`      — the tolerant reader on exactly the same cut: the same records and
                          the same `validEnd`, and a clean end of file.
+* `C12_translated_validLogRecord`, `C12_translated_validHintRecord` — the checks the readers run on a reassembled
+                         payload before they decode it (`validLogRecord`, `validHintRecord`, repair 20d0fcc), as they
+                         stand in /repo (translated on every run by harness/cmd/trans), accept EXACTLY the byte
+                         strings the model's `decodeRecord` / `decodeValue` / `decodeHint` decode.
 NOT provable and not claimed: detection of arbitrary multi-byte garbage and of flips in the length
 field (probabilistic); the "never panics" half of the property is a statement about Go slice bounds,
 which the model cannot violate by construction — it is checked by the exhaustive corruption runs
@@ -175,5 +180,44 @@ example :
     (by rw [h0, he]; omega) hhi
   rw [h0] at hs ht
   exact ⟨hs, ht⟩
+
+/-! ## the validity checks of the readers as they stand in /repo (translator tie, round 4) -/
+
+/-- `validLogRecord(data)` — what `NextLogRecord` and `ReadRecordValue` test before `DecodeLogRecord` /
+    `DecodeLogRecordValue` — as it stands in /repo = "the model decodes `data`", for EVERY byte string: the Go
+    check accepts iff `decodeRecord` (iff `decodeValue`) returns a record.  Both directions: nothing the model
+    refuses (empty payload, a varint that overflows or ends inside, a negative or oversized length, a payload
+    shorter or longer than its header states) is accepted by Go, and nothing the model decodes is refused.
+    `hsz`: `len(data)` is a Go `int`. -/
+theorem C12_translated_validLogRecord (data : ByteArray) (hsz : data.size < 2^63) :
+    Generated.Trans.datafile.validLogRecord data = (Record.decodeRecord data).isSome ∧
+    Generated.Trans.datafile.validLogRecord data = (Record.decodeValue data).isSome :=
+  ⟨TransEq.trans_validLogRecord_eq data hsz, TransEq.trans_validLogRecord_value data hsz⟩
+
+/-- `validHintRecord(buf)` — what `NextHintRecord` tests before `DecodeHintRecord` — as it stands in /repo
+    (a counted loop over the four position varints; the computed fuel suffices: `some`) = "the model decodes
+    `buf`", for every byte string.  No hypothesis. -/
+theorem C12_translated_validHintRecord (buf : ByteArray) :
+    Generated.Trans.datafile.validHintRecord buf = some (Record.decodeHint buf).isSome :=
+  TransEq.trans_validHintRecord_eq buf
+
+/-- both sides of `C12_translated_validLogRecord` on concrete payloads: an encoded record (type 1, key "k1",
+    value "v", batch 300) is accepted and decoded; the same bytes with the last byte missing, and with one byte
+    appended, are refused by both (these are the payloads a lost block produces) -/
+example :
+    Generated.Trans.datafile.validLogRecord ⟨#[1, 4, 2, 0xac, 0x02, 0x6b, 0x31, 0x76]⟩ = true ∧
+    (Record.decodeRecord ⟨#[1, 4, 2, 0xac, 0x02, 0x6b, 0x31, 0x76]⟩).isSome = true ∧
+    Generated.Trans.datafile.validLogRecord ⟨#[1, 4, 2, 0xac, 0x02, 0x6b, 0x31]⟩ = false ∧
+    (Record.decodeRecord ⟨#[1, 4, 2, 0xac, 0x02, 0x6b, 0x31]⟩).isSome = false ∧
+    Generated.Trans.datafile.validLogRecord ⟨#[1, 4, 2, 0xac, 0x02, 0x6b, 0x31, 0x76, 0]⟩ = false ∧
+    (Record.decodeValue ⟨#[1, 4, 2, 0xac, 0x02, 0x6b, 0x31, 0x76, 0]⟩).isSome = false := by decide +kernel
+
+/-- … and of `C12_translated_validHintRecord`: fid 3, block 70000, offset 5, size 300, key "k" is accepted; cut
+    inside the fourth varint it is refused -/
+example :
+    Generated.Trans.datafile.validHintRecord ⟨#[3, 0xf0, 0xa2, 0x04, 5, 0xac, 0x02, 0x6b]⟩ = some true ∧
+    (Record.decodeHint ⟨#[3, 0xf0, 0xa2, 0x04, 5, 0xac, 0x02, 0x6b]⟩).isSome = true ∧
+    Generated.Trans.datafile.validHintRecord ⟨#[3, 0xf0, 0xa2, 0x04, 5, 0xac]⟩ = some false ∧
+    (Record.decodeHint ⟨#[3, 0xf0, 0xa2, 0x04, 5, 0xac]⟩).isSome = false := by decide +kernel
 
 end XixiKV.C12
